@@ -62,3 +62,75 @@ Proof.
   intros U. destruct (frun_inv (ops ++ [FFlushFail w]) finit finit_inv) as [I1 I2].
   split; [exact (I1 k U)|exact (I2 k (I1 k U))].
 Qed.
+
+(* ---- content-carrying model (C02) ---- *)
+Record CInv (s : cst) : Prop := {
+  c1 : forall k, mem s k <> file s k -> cdirty s k = true;
+  c2 : forall k, cdirty s k = true -> cflag s = true
+}.
+
+Lemma cinit_inv f : CInv (cinit f).
+Proof. constructor; cbn [cinit mem file cdirty cflag]; intros k H; [exfalso; apply H; reflexivity|discriminate]. Qed.
+
+Lemma cstep_inv s o : CInv s -> CInv (cstep s o).
+Proof.
+  intros [I1 I2]. destruct o as [k v| |w|k|k]; constructor; cbn [cstep mem file cdirty cflag]; unfold setb, setn; intros x H.
+  - destruct (x =? k) eqn:E; [reflexivity|apply I1; exact H].
+  - reflexivity.
+  - destruct (cdirty s x) eqn:D; [exfalso; apply H; reflexivity|]. rewrite (I1 x H) in D. discriminate.
+  - discriminate.
+  - destruct (existsb (N.eqb x) w) eqn:E.
+    + rewrite andb_true_r in H. destruct (cdirty s x) eqn:D; [exfalso; apply H; reflexivity|].
+      rewrite (I1 x H) in D. discriminate.
+    + rewrite andb_false_r in H. apply I1. exact H.
+  - reflexivity.
+  - destruct (cdirty s k) eqn:D.
+    + destruct (N.eqb_spec x k) as [->|Hne]; [exfalso; apply H; reflexivity|]. apply I1. exact H.
+    + destruct (N.eqb_spec x k) as [->|Hne]; [rewrite (I1 k H) in D; discriminate|apply I1; exact H].
+  - destruct (x =? k); [discriminate|]. apply (I2 x). exact H.
+  - apply I1. exact H.
+  - destruct (cdirty s k); [reflexivity|]. apply (I2 x). exact H.
+Qed.
+
+Theorem crun_inv ops : forall s, CInv s -> CInv (crun_ s ops).
+Proof.
+  induction ops as [|o r IH]; intros s I; [exact I|]. cbn [crun_ fold_left]. apply IH. apply cstep_inv. exact I.
+Qed.
+
+(* what the running device reads is the flat reference: only updates change it (flushes and evictions, failed or
+   not, never do) *)
+Lemma cstep_mem s o : mem (cstep s o) = match o with CUpdate k v => setn (mem s) k v | _ => mem s end.
+Proof. destruct o; reflexivity. Qed.
+
+Theorem crun_mem ops : forall s, mem (crun_ s ops) = cref (mem s) ops.
+Proof.
+  induction ops as [|o r IH]; intros s; [reflexivity|]. cbn [crun_ fold_left]. fold (crun_ (cstep s o) r).
+  rewrite IH, cstep_mem. destruct o; reflexivity.
+Qed.
+
+(* C02: right after a successful flush_meta the file alone determines the content: for every slice the file holds
+   exactly what the running device reads, which is the flat reference of the whole history *)
+Theorem flush_ok_file_is_reference f ops k :
+  file (crun_ (cinit f) (ops ++ [CFlushOk])) k = cref f ops k /\
+  mem (crun_ (cinit f) (ops ++ [CFlushOk])) k = cref f ops k.
+Proof.
+  unfold crun_. rewrite fold_left_app. cbn [fold_left cstep file mem]. fold (crun_ (cinit f) ops).
+  pose proof (crun_mem ops (cinit f)) as M. cbn [cinit mem] in M.
+  destruct (crun_inv ops (cinit f) (cinit_inv f)) as [I1 _].
+  split; [|rewrite M; reflexivity].
+  destruct (cdirty (crun_ (cinit f) ops) k) eqn:D; [rewrite M; reflexivity|].
+  destruct (N.eq_dec (mem (crun_ (cinit f) ops) k) (file (crun_ (cinit f) ops) k)) as [E|NE].
+  - rewrite <- E, M. reflexivity.
+  - rewrite (I1 k NE) in D. discriminate.
+Qed.
+
+(* whenever the flag is false the same holds without a flush (C18 in content form) *)
+Theorem cflag_false_file_is_reference f ops k :
+  cflag (crun_ (cinit f) ops) = false -> file (crun_ (cinit f) ops) k = cref f ops k.
+Proof.
+  intros F. destruct (crun_inv ops (cinit f) (cinit_inv f)) as [I1 I2].
+  pose proof (crun_mem ops (cinit f)) as M. cbn [cinit mem] in M.
+  destruct (N.eq_dec (mem (crun_ (cinit f) ops) k) (file (crun_ (cinit f) ops) k)) as [E|NE].
+  - rewrite <- E, M. reflexivity.
+  - rewrite (I2 k (I1 k NE)) in F. discriminate.
+Qed.
